@@ -27,3 +27,13 @@ inline void c09_inst_ctor(const GlobTransfer::MuxerType* muxer, LAFEM::Transfer<
   GlobTransfer t(muxer, std::move(loc));
   (void)t;
 }
+
+// convert(other) is a member template of both transfer classes: instantiated by a never-called function (rule E1.transfer-clone-mode,
+// member-wise agreement of the copy-like members)
+typedef LAFEM::SparseMatrixCSR<float, unsigned int> ScalarMatrixF;
+typedef FEAT::Global::Transfer<LAFEM::Transfer<ScalarMatrixF>, LAFEM::VectorMirror<float, unsigned int>> GlobTransferF;
+inline void c09_inst_convert(LAFEM::Transfer<ScalarMatrix>& t, const LAFEM::Transfer<ScalarMatrixF>& o, GlobTransfer& g, const GlobTransferF& go, GlobTransfer::MuxerType* muxer)
+{
+  t.convert(o);
+  g.convert(muxer, go);
+}
